@@ -1139,9 +1139,12 @@ class Font(BaseObject):
         if not isinstance(guideline, self._guidelineClass):
             guideline = self.instantiateGuideline(guidelineDict=guideline)
         assert guideline.font in (self, None), "This guideline belongs to another font."
-        self.postNotification(notification="Font.GuidelineWillBeAdded", data=dict(object=guideline))
         if guideline.font is None:
             assert guideline.glyph is None, "This guideline belongs to a glyph."
+            if guideline.identifier is not None:
+                # a guideline that is going to be rejected must not be announced
+                assert guideline.identifier not in self._identifiers
+        self.postNotification(notification="Font.GuidelineWillBeAdded", data=dict(object=guideline))
         if guideline.font is None:
             if guideline.identifier is not None:
                 identifiers = self._identifiers
@@ -1162,6 +1165,8 @@ class Font(BaseObject):
 
         This will post *Font.GuidelineWillBeDeleted*, *Font.GuidelinesChanged* and *Font.Changed* notifications.
         """
+        if guideline not in self._guidelines:
+            raise ValueError("guideline not in font")
         self.postNotification(notification="Font.GuidelineWillBeDeleted", data=dict(object=guideline))
         if guideline.identifier is not None:
             self._identifiers.remove(guideline.identifier)
